@@ -67,6 +67,10 @@ type scenario struct {
 	// glitch mode: the holder's GlitchAt-th backend operation after its Mkdir of the lock directory fails once with a
 	// transient error (the backend is left untouched by that operation); everything else is on time
 	GlitchAt int
+	// GlitchFor > 0 (glitch mode): instead of one operation, every OpenFile of the heart-beat file fails from the holder's
+	// GlitchAt-th operation on, for GlitchFor operations of that kind (a process out of descriptors, a read-only remount):
+	// the content cannot be rewritten, the path-based stamp still goes through
+	GlitchFor int
 	// Reentrant > 0: while the lock is held through a lock object, another goroutine calls LockWithTimeout(Reentrant) on
 	// that same object (a shared ILock, a re-entrant attempt); it cannot get the lock, and the holder's heart beat must go on
 	Reentrant time.Duration
@@ -89,6 +93,7 @@ type world struct {
 	backend   afero.Fs
 	killed    bool
 	glitchOps int
+	glitchN   int
 	glitched  string
 	// death mode with overriding recoverers: who holds a lock acquired after the recovery (live, beating on time), and
 	// how many staleness evaluations each client made since its Mkdir last said "exists"
@@ -105,6 +110,14 @@ func (sc scenario) onTime() bool { return sc.Mode == "ontime" || sc.Mode == "gli
 func (w *world) beforeOp(op *vfsx.Op) *vfsx.Inject {
 	if w.sc.Mode == "glitch" && op.Client == 0 && w.dirOwner == 0 && w.holding {
 		w.glitchOps++
+		if w.sc.GlitchFor > 0 {
+			if w.glitchOps >= w.sc.GlitchAt && op.Kind == vfsx.KOpenFile && op.Path == hbFile && w.glitchN < w.sc.GlitchFor {
+				w.glitchN++
+				w.glitched = op.String()
+				return &vfsx.Inject{Err: errors.New("too many open files")}
+			}
+			return nil
+		}
 		if w.glitchOps == w.sc.GlitchAt {
 			w.glitched = op.String()
 			w.x.Note("transient error injected into the holder's operation %s", op)
@@ -464,6 +477,10 @@ func scenarios() []scenario {
 	out = append(out, scenario{Name: "ontime/H7/LockWithTimeout(63ms) on the same object + poll IsStale 7ms + TryLock-override 13ms", Mode: "ontime", HoldBeats: 7, Reentrant: 63 * time.Millisecond, Bound: 0, Observers: []observer{
 		{Calls: rep("IsStale", 48), Gap: 7 * time.Millisecond, Offset: 100 * time.Microsecond},
 		{Calls: rep("TryLock-override", 25), Gap: 13 * time.Millisecond, Offset: 200 * time.Microsecond}}})
+	// (a3) the heart-beat file cannot be opened for 4 beats in a row (its time stamp can still be set)
+	out = append(out, scenario{Name: "glitch/heart-beat file cannot be opened for 4 beats/H8/poll IsStale 7ms + TryLock-override 13ms", Mode: "glitch", HoldBeats: 8, GlitchAt: 5, GlitchFor: 4, Bound: 0, Observers: []observer{
+		{Calls: rep("IsStale", 55), Gap: 7 * time.Millisecond, Offset: 100 * time.Microsecond},
+		{Calls: rep("TryLock-override", 29), Gap: 13 * time.Millisecond, Offset: 200 * time.Microsecond}}})
 	// (b) adversarial
 	out = append(out,
 		scenario{Name: "adversarial/H3/1obs gap60", Mode: "adversarial", HoldBeats: 3, Bound: 2, Observers: []observer{obs(60*time.Millisecond, "IsStale", "TryLock-override")}},
